@@ -1,5 +1,5 @@
 From Coq Require Import List Arith Bool Lia PeanoNat ZArith Permutation.
-Require Import Dfs Kahn.
+From Godi Require Import GDfs GKahn.
 Import ListNotations.
 
 (* Part 1 (abstract): given ANY topologically closed list L covering the nodes, a Kahn state with an
@@ -46,7 +46,7 @@ Section Stuck.
     { intros d Hd. destruct (in_dec Nat.eq_dec d res) as [H|H]; [exact H|].
       exfalso. apply (Hmax d Hd). split; [eapply deps_closed; eauto|exact H]. }
     clear -Hall. induction (deps s) as [|a l IH]; [reflexivity|]. cbn [filter].
-    assert (Kahn.mem a res = true) as -> by (apply Kahn.mem_In, Hall; left; reflexivity).
+    assert (GKahn.mem a res = true) as -> by (apply GKahn.mem_In, Hall; left; reflexivity).
     cbn [negb]. apply IH. intros d Hd. apply Hall. right; exact Hd.
   Qed.
 End Stuck.
